@@ -61,6 +61,22 @@ def component(ctx, rng, n_cases, sl):
         def bad(sig, detail):
             sl.violations.append({"signature": sig, "detail": detail, "replay": {"X": X.tolist(), "f": f.tolist()}})
 
+        # precision wrapper: "within eps of the optimum" on (f, max, opt) and on (-f, min, -opt)
+        from pyhms.core.problem import FunctionProblem, PrecisionCutoffProblem
+
+        opt = float(rng.choice([0.0, 1.5, -2.0]))
+        eps = float(rng.choice([0.0, 0.25, 1.0]))
+        vals = [float(opt + t) for t in rng.choice([-2.0, -1.0, -0.25, -0.1, 0.0, 0.1, 0.25, 1.0, 2.0], 5)]
+        ia, ib = iter(vals), iter([-v for v in vals])
+        wa = PrecisionCutoffProblem(FunctionProblem(lambda x: next(ia), bounds=np.array([[-1.0, 1.0]]), maximize=True), opt, eps)
+        wb = PrecisionCutoffProblem(FunctionProblem(lambda x: next(ib), bounds=np.array([[-1.0, 1.0]]), maximize=False), -opt, eps)
+        for k_, v_ in enumerate(vals):
+            wa.evaluate(np.zeros(1))
+            wb.evaluate(np.zeros(1))
+            if (wa.hit_precision, wa.ETA) != (wb.hit_precision, wb.ETA):
+                bad("C13/precision-wrapper", f"after {k_ + 1} evaluations (values {vals[:k_ + 1]}, optimum {opt}, precision {eps}) the wrapper reports hit={wa.hit_precision} ETA={wa.ETA} under maximisation but hit={wb.hit_precision} ETA={wb.ETA} on the mirrored problem")
+                break
+        sl.count("precision-wrapper")
         # ordering and best
         for i in range(n):
             for j in range(n):
@@ -206,8 +222,8 @@ def twin_specs(rng, n):
         for L in spec["levels"]:
             if L["lsc"]["kind"] == "FitnessSteadiness":
                 L["lsc"] = {"kind": "MetaepochLimit", "limit": int(rng.integers(1, 5))}
-        if spec["gsc"]["kind"] == "SingularProblemPrecisionReached":
-            spec["gsc"] = {"kind": "SingularProblemEvalLimitReached", "limit": int(rng.integers(60, 400))}
+        # (SingularProblemPrecisionReached stays: the optimum VALUE of all four objectives is 0 in both
+        # formulations, so the precision wrapper's hit / ETA must mirror as well)
         if spec["gsc"]["kind"] == "User":
             spec["gsc"]["look"] = False
         # an exhausted evaluation cutoff hands the sentinel (the worst value, +-inf) to the engines:
